@@ -15,6 +15,7 @@ are false of the pinned source (namespace `Neg`): they are proved
     hypothesis that excludes the failing region (`Op.restoreOrderedAt`, `Op.freshOkAt`).
 -/
 import LinVerif.Lemmas.C06Consume
+import LinVerif.Model.FanOutPark
 import LinVerif.Generated.C06
 
 set_option linter.unusedSimpArgs false
@@ -370,6 +371,125 @@ theorem consume_vs_ack (v : Variant) (s : State) (hb : Base s) (ho : Order s) (h
   intro o ho
   rcases hall o ho with e | ⟨n, e⟩ <;> subst e <;> trivial
 
+/-! ## two-step Consume: a call parked in NotEmpty while other goroutines move the positions
+
+`Consume` = (A) unlocked read of consumed+1, (B) park in `NotEmpty` until that head ≤ appended (or
+paused/closed), (C) `consume()` under the write lock, which re-reads the consumed position
+(Model/FanOutPark.lean: `cbegin` = A+B, `cend` = wake-up + C; generated facts `consumeOuterCalls`,
+`consumeCalls` tie the structure, see `call_order_tie`). Histories over `POp` put ANY operation of
+any other goroutine — SetConsumedSeq, SetSeq, SetAppendedSeq, Put, Ack, Sync, GC, create/stop —
+between `cbegin` and `cend`. -/
+
+/-- what a returning parked call does to the state: nothing, or exactly what `consume()` does now -/
+theorem cend_is_consume (v : Variant) (ps : PState) (g : Nat) :
+    ((pstep v ps (.cend g)).1.s = ps.s ∧
+      ((pstep v ps (.cend g)).2 = .notParked ∨ (pstep v ps (.cend g)).2 = .blocked ∨
+       (pstep v ps (.cend g)).2 = .res (.val noSeq))) ∨
+    ((pstep v ps (.cend g)).1.s = (step v ps.s (.consume g)).1 ∧
+      (pstep v ps (.cend g)).2 = .res (step v ps.s (.consume g)).2 ∧ ∃ grp, lookup ps.s.live g = some grp) := by
+  simp only [pstep]
+  split
+  · exact Or.inl ⟨rfl, Or.inl rfl⟩
+  · split
+    · split
+      · exact Or.inl ⟨rfl, Or.inr (Or.inr rfl)⟩
+      · rename_i grp hgrp
+        exact Or.inr ⟨rfl, rfl, ⟨grp, hgrp⟩⟩
+    · exact Or.inl ⟨rfl, Or.inr (Or.inl rfl)⟩
+
+/-- (2) for a parked call, step form: whatever head it computed before it parked and whatever
+happened since, a returning `Consume` that hands out a sequence hands out consumed+1 of the state
+it returns in; that becomes the consumed position, the ack is untouched, and it is at most the
+appended position. -/
+theorem parked_consume_step (v : Variant) (ps : PState) (g : Nat) (n : Int)
+    (h : (pstep v ps (.cend g)).2 = .res (.val n)) (hn : n ≠ noSeq) :
+    ∃ grp, lookup ps.s.live g = some grp ∧ n = grp.consumed + 1 ∧ n ≤ ps.s.q.appended ∧
+      (pstep v ps (.cend g)).1.s = ps.s.putGroup g { grp with consumed := n } := by
+  rcases cend_is_consume v ps g with ⟨_, h1 | h1 | h1⟩ | ⟨hs, hr, grp, hgrp⟩
+  · rw [h1] at h; cases h
+  · rw [h1] at h; cases h
+  · rw [h1] at h; cases h; exact absurd rfl hn
+  · rw [hr] at h
+    rcases consume_step v ps.s g grp hgrp with hc | ⟨hc, hle⟩
+    · rw [hc] at h; cases h; exact absurd rfl hn
+    · rw [hc] at h hs
+      simp only [PRes.res.injEq, Res.val.injEq] at h
+      subst h
+      exact ⟨grp, hgrp, rfl, hle, hs⟩
+
+/-- a parked call that returns "nothing available" leaves every position as it is -/
+theorem parked_consume_empty (v : Variant) (ps : PState) (g : Nat)
+    (h : (pstep v ps (.cend g)).2 = .res (.val noSeq)) (grp : Group) (hl : lookup ps.s.live g = some grp)
+    (hc : -1 ≤ grp.consumed) : (pstep v ps (.cend g)).1.s = ps.s := by
+  rcases cend_is_consume v ps g with ⟨hs, _⟩ | ⟨hs, hr, _⟩
+  · exact hs
+  · rw [hr] at h
+    rcases consume_step v ps.s g grp hl with hcs | ⟨hcs, _⟩
+    · rw [hs, hcs]
+    · rw [hcs] at h
+      simp only [PRes.res.injEq, Res.val.injEq, noSeq] at h
+      omega
+
+/-- (2) over histories with parked calls: along EVERY history of operations, `cbegin`s and `cend`s
+(any interleaving of a consumer's two-step `Consume` with set-consumed / resets / appends / acks /
+anything else, from any state), each sequence a returning parked call hands out is consumedSeq+1
+at the time it returns. -/
+theorem parked_consume_consecutive (v : Variant) (ps0 : PState) (pre post : List POp) (g : Nat) (n : Int)
+    (h : (pstep v (prun v ps0 pre) (.cend g)).2 = .res (.val n)) (hn : n ≠ noSeq) :
+    ∃ grp, lookup (prun v ps0 pre).s.live g = some grp ∧ n = grp.consumed + 1 ∧
+      n ≤ (prun v ps0 pre).s.q.appended ∧
+      lookup (prun v ps0 (pre ++ .cend g :: post)).s.live g =
+        lookup (prun v (pstep v (prun v ps0 pre) (.cend g)).1 post).s.live g ∧
+      lookup (pstep v (prun v ps0 pre) (.cend g)).1.s.live g = some { grp with consumed := n } := by
+  obtain ⟨grp, hl, he, hle, hs⟩ := parked_consume_step v _ g n h hn
+  refine ⟨grp, hl, he, hle, ?_, ?_⟩
+  · have : ∀ (a b : List POp) (p : PState), prun v p (a ++ b) = prun v (prun v p a) b := by
+      intro a
+      induction a with
+      | nil => intro b p; rfl
+      | cons o os ih => intro b p; simp [prun, ih]
+    rw [this]; rfl
+  · rw [hs]; exact putGroup_live_self _ _ _
+
+/-- every step of a history with parked calls satisfies the guard on its embedded operation -/
+def PValid (v : Variant) (G : State → Op → Prop) : PState → List POp → Prop
+  | _, [] => True
+  | ps, .op o :: os => G ps.s o ∧ PValid v G (pstep v ps (.op o)).1 os
+  | ps, o :: os => PValid v G (pstep v ps o).1 os
+
+/-- the invariants of clauses (1), (4), (5) survive every interleaving of two-step `Consume` calls
+with reset-free operations of other goroutines (for the pinned source: outside the two excluded
+regions; for the repaired one the last two guards are implied). -/
+theorem parked_invariants (v : Variant) :
+    ∀ (ops : List POp) (ps : PState), Base ps.s → Order ps.s → Above ps.s →
+      PValid v (fun s o => o.okAt s ∧ (v.liftConsumed = true ∨ o.restoreOrderedAt s) ∧
+        (v.freshAtQueueAck = true ∨ o.freshOkAt s)) ps ops →
+      Base (prun v ps ops).s ∧ Order (prun v ps ops).s ∧ Above (prun v ps ops).s
+  | [], _, hb, ho, ha, _ => ⟨hb, ho, ha⟩
+  | .op o :: os, ps, hb, ho, ha, hv =>
+    parked_invariants v os _ (hb.step hv.1.1) (Order.step hb ho hv.1.1 hv.1.2.1) (Above.step hb ha hv.1.1 hv.1.2.2) hv.2
+  | .cbegin g :: os, ps, hb, ho, ha, hv => by
+    have hs : (pstep v ps (.cbegin g)).1.s = ps.s := by
+      simp only [pstep]; split <;> rfl
+    exact parked_invariants v os _ (hs ▸ hb) (hs ▸ ho) (hs ▸ ha) hv
+  | .cend g :: os, ps, hb, ho, ha, hv => by
+    rcases cend_is_consume v ps g with ⟨hs, _⟩ | ⟨hs, _, _⟩
+    · exact parked_invariants v os _ (hs ▸ hb) (hs ▸ ho) (hs ▸ ha) hv
+    · have ok : (Op.consume g).okAt ps.s := trivial
+      exact parked_invariants v os _ (hs ▸ hb.step ok)
+        (hs ▸ Order.step hb ho ok (Or.inr trivial)) (hs ▸ Above.step hb ha ok (Or.inr trivial)) hv
+
+/-- non-vacuity and the seeded shape: a call parked with head 10 is woken after a rewind to 3 and
+hands out 4 (not its stale head 10); parked across a backwards index reset it hands out reset+1. -/
+example :
+    let pre : List POp := [.op (.create 0)] ++ (List.replicate 10 (.op (.append 1))) ++
+      (List.replicate 10 (.op (.consume 0))) ++ [.op (.ack 0 2), .cbegin 0, .op (.setConsumed 0 3), .op (.append 1)]
+    (pstep Variant.fixed (prun Variant.fixed PState.init pre) (.cend 0)).2 = .res (.val 4) ∧
+    (pstep Variant.fixed (prun Variant.fixed PState.init (pre ++ [.cend 0, .op (.setConsumed 0 10), .cbegin 0,
+        .op (.setAppended 6), .op (.append 1)])) (.cend 0)).2 = .blocked ∧
+    (pstep Variant.fixed (prun Variant.fixed PState.init (pre ++ [.cend 0, .op (.setConsumed 0 10), .cbegin 0,
+        .op (.setAppended 6)] ++ List.replicate 5 (.op (.append 1)))) (.cend 0)).2 = .res (.val 7) := by decide
+
 /-! ## ties to the regenerated facts (harness/internal/extract/facts_c06.go) -/
 
 /-- the source's `NewConsumerGroup` is one of the modelled variants -/
@@ -455,6 +575,16 @@ theorem call_order_tie :
     essential ["indexPageFct.AcquirePage", "indexPage.PutUint64", "metaPage.PutUint64", "appendedSeq.Store"]
       Generated.C06.queuePersistCalls =
       ["indexPageFct.AcquirePage", "indexPage.PutUint64", "metaPage.PutUint64", "appendedSeq.Store"] ∧
+    -- Consume delegates to the locked consume() after NotEmpty and stores no position itself ...
+    essential ["consumedSeq.Load", "f.Queue().Queue().NotEmpty", "f.consume", "consumedSeq.Store",
+        "acknowledgedSeq.Store", "metaPage.PutUint64"] Generated.C06.consumeOuterCalls =
+      ["consumedSeq.Load", "f.Queue().Queue().NotEmpty", "f.consume"] ∧
+    Generated.C06.consumeOuterCalls.getLast? = some "f.consume" ∧
+    Generated.C06.consumeOuterConds = ["!f.Queue().Queue().NotEmpty(headSeq, f.isPause)"] ∧
+    -- ... and consume() re-reads the consumed position under the write lock before it stores
+    essential ["lock4headSeq.Lock", "consumedSeq.Load", "q.Queue().AppendedSeq", "consumedSeq.Store"]
+      Generated.C06.consumeCalls =
+      ["lock4headSeq.Lock", "consumedSeq.Load", "q.Queue().AppendedSeq", "consumedSeq.Store"] ∧
     Generated.C06.setConsumedLock = "Lock" ∧ Generated.C06.setSeqLock = "Lock" := by decide
 
 /-! ## non-vacuity: the hypotheses are satisfied by non-trivial histories -/
